@@ -529,8 +529,8 @@ def run_impl(cexe, cases):
     return rc, out, err, crashes
 
 
-REPAIRS = ["zerofix", "gridfix"]      # /repo commits 8e7b6f1, d58ea84 (were notes/fix_C17_1.diff, fix_C17_2.diff)
-PROPOSED = ["copyfix"]                # notes/fix_C17_3.diff (F17c): scaled copies refreshed by rfbScheduleCopyRegion
+REPAIRS = ["zerofix", "gridfix", "copyfix"]      # /repo commits 8e7b6f1, d58ea84, <commit of notes/fix_C17_3.diff>
+PROPOSED = []
 
 
 def is_sweep(c):
@@ -783,7 +783,7 @@ def check(ctx):
     cexe, mexe, proof_ok = build(ctx)
     cases = gen_cases(ctx)
     rc1, cout, cerr, crashes = run_impl(cexe, cases)
-    mo, me, table = run_model(ctx, mexe, cases, zerofix=True, gridfix=True)     # the tree: 8e7b6f1, d58ea84
+    mo, me, table = run_model(ctx, mexe, cases, zerofix=True, gridfix=True, copyfix=True)     # the tree
     cc, mc = vlib.split_cases(cout), vlib.split_cases(mo)
     by_head = {h: ls for (h, ls) in cc}
     mby_head = {h: ls for (h, ls) in mc}
@@ -816,12 +816,13 @@ def check(ctx):
             mm0 = mismatches = mm1
             chosen = list(REPAIRS) + PROPOSED
     if mm0:     # would the model with one repair dropped agree?  -> regression of that commit
-        for trial in (["zerofix"], ["gridfix"], []):
-            mo1, _, t1 = run_model(ctx, mexe, cases, zerofix="zerofix" in trial, gridfix="gridfix" in trial)
+        for trial in (["zerofix", "copyfix"], ["gridfix", "copyfix"], ["zerofix", "gridfix"], []):
+            mo1, _, t1 = run_model(ctx, mexe, cases, zerofix="zerofix" in trial, gridfix="gridfix" in trial,
+                                   copyfix="copyfix" in trial)
             mm1 = mismatches_of({h: ls for (h, ls) in vlib.split_cases(mo1)})
             if len(mm1) < len(mismatches):
                 mismatches, chosen = mm1, list(trial)
-        run_model(ctx, mexe, cases, zerofix=True, gridfix=True)
+        run_model(ctx, mexe, cases, zerofix=True, gridfix=True, copyfix=True)
     variant = ",".join(chosen) or "none"
     pybad = py_float_check(table)
     nops = sum(len(c) - 1 for c in cases)
@@ -902,7 +903,7 @@ def replay(ctx, path):
     lines = [l for l in body.split("\n") if l.strip()]
     cexe, mexe, _ = build(ctx)
     r, co, ce, cr = run_impl(cexe, [lines])
-    mo, me, _ = run_model(ctx, mexe, [lines], zerofix=True, gridfix=True)
+    mo, me, _ = run_model(ctx, mexe, [lines], zerofix=True, gridfix=True, copyfix=True)
     print("implementation:\n" + co + ce[-800:] + ("crash: %s\n" % (cr,) if cr else "") + "model:\n" + mo)
     cs = vlib.split_cases(co)
     es = oracle_case(lines, cs[0][1] if cs else [], cr.get(lines[0]) or cr.get("*"))
